@@ -185,11 +185,11 @@ def scheduled_cycle(flags, load, events, schedule, cost, knobs=None):
     E = session.emitted_preterminals(ctx)
     ends = [e["first_line"] for e in E[1:]] + [ctx.nlines]
     for e, end in zip(E, ends):
-        e["lines"] = r.lines[e["first_line"]:end]
+        e["lines"] = ctx.guesses[e["first_line"]:end]
     r.emitted = E
     r.remainder = []
     for call in ctx.restore_omen_calls:
-        r.remainder.extend(r.lines[call[1]:call[2] if call[2] is not None else ctx.nlines])
+        r.remainder.extend(ctx.guesses[call[1]:call[2] if call[2] is not None else ctx.nlines])
     r.sim = sim
     return r
 
@@ -317,7 +317,7 @@ def run_one(tape, tier, prop):
                 cases.append(gen_directed(t, total))
             else:
                 cases.append((gen_script(t, U, total), gen_schedule(t, total * 12),
-                              t.choice([1e-4, 1e-3, 0.02, 0.05, 0.2, 0.2])))
+                              t.choice([1e-4, 1e-3, 0.02, 0.05, 0.2, 0.2, 4000.0, 100000.0])))     # incl. clock jumps of hours/days
     sigs = []
     # variant: the scheduled process is a RESUMED one (a stand-in quit inside a Markov level came first), so
     # that status requests meet the stand-in item restore_omen installs and quits can land in the remainder
